@@ -1054,7 +1054,7 @@ func (b Bounds) GenNameShape(eco, shape string, emit func(*Case)) {
 						for _, vs := range vulns("t1") {
 							for _, cfg := range cfgsFor("t1") {
 								emit(&Case{Eco: eco, Shape: shape, Names: map[string]string{"d1": name, "t1": n2}, CfgRoute: route,
-									Pkgs: []Pkg{{Name: "d1", Vers: []Ver{{V: "1.0.0", Deps: []Dep{{Name: "t1", Req: a}}}}}, {Name: "t1", Vers: plainVers(t)}},
+									Pkgs:     []Pkg{{Name: "d1", Vers: []Ver{{V: "1.0.0", Deps: []Dep{{Name: "t1", Req: a}}}}}, {Name: "t1", Vers: plainVers(t)}},
 									Manifest: []Req{{Name: "d1", Req: "1.0.0"}}, Vulns: vs, Cfg: cfg})
 							}
 						}
